@@ -78,6 +78,10 @@ def check(ctx):
     c01.rule_search(ctx, F, "R4")            # the frame is found by a search for the position in every phase      # at and after the last frame the lookup yields that frame (the value is held)
     from rules import derive_rules
     derive_rules.rule_wiring(ctx, "R4")
+    # a merged timeline produces these values only if it applies every component on every evaluation - before a component's
+    # delay (its 0% value) as well as after its end (its terminal value) (C12/R1)
+    from rules import c12
+    c12.check_loop_method(ctx, F, "R6", "update", mutable=False)
     # the value at a keyframe is exact only if the segment's easing maps 0 to 0 and 1 to 1 exactly (C13/R1-R3)
     from rules import c13
     c13.include_endpoints(ctx, "R5")
